@@ -21,11 +21,13 @@ CHECKS = {
         "technique": "explicit-state bounded model checking of the real KeyValueStore: exhaustive enumeration of operation sequences (client ops x single-stepped flush/compaction/GC/verifier/reopen) against a sequential map model",
         "design_ref": "DESIGN.md 3.1, 4 (C01)",
         "jobs": {
-            "quick": [seq("C01", 4)],
-            "thorough": [seq("C01", 5), seq("C01", 4, COVER)],
+            "quick": [seq("C01", 4), seq("C01", 8, "C-default", ["--alphabet", "put:a,put:ab,put:b,R", "--salts", 3, "--only-seed", "empty"])],
+            "thorough": [seq("C01", 5), seq("C01", 4, COVER),
+                         seq("C01", 9, "C-default,A-min", ["--alphabet", "put:a,put:ab,put:b,del:ab,R", "--salts", 3, "--only-seed", "empty"]),
+                         seq("C01", 7, "A-min,B-l0", ["--alphabet", "put:a,del:a,put:b,puthuge:ab,F,C,C*", "--salts", 2, "--only-seed", "empty"])],
         },
         "text": "Every history of <= d steps over a 13-symbol alphabet (3 prefix-sharing keys; put/del/batches; one flush-loop iteration; one compaction-loop iteration; compact-until-idle; clean reopen; verifier pass), from the empty store and from 3 seeded deep states, in 3 adversarial configuration rows (quick, d=4) / 8 rows (thorough, d=5 resp. 4), is executed on the real lsmtk code and every probe key is read back and compared with a BTreeMap model; no fault-free step may return an error. This is bounded exhaustive model checking of the implementation itself, not sampling.",
-        "note": "Trusted: the single-step hooks make one loop iteration atomic (no interleaving inside a flush or compaction -- C06/C07/C20 cover schedules); 3 keys; option values of the grid; histories longer than the depth only through the seeds.",
+        "note": "A second job goes deeper on a recovery-oriented sub-alphabet {put a, put ab, put b, reopen} (every reopen turns the log into one SST and recovery re-derives all levels from key/timestamp overlap): every history <= 8, with 3 value salts so that both orders of the digest-sorted manifest listing are driven. Trusted: the single-step hooks make one loop iteration atomic (no interleaving inside a flush or compaction -- C06/C07/C20 cover schedules); 3 keys; option values of the grid; histories longer than the depth only through the seeds.",
     },
     "C03": {
         "level": "model_checking",
@@ -209,11 +211,37 @@ CHECKS = {
         "text": "Children are in-memory vector cursors with exactly the reference semantics (LazyCursor gets real SSTs on tmpfs). All families of <= 3 tables with <= 2 entries (thorough: up to 3) over keys {a,b,c} x timestamps {1,2,3} x {value, tombstone}, including empty tables, tombstone-only tables and one key's versions split across adjacent tables: MergingCursor = sorted union; ConcatenatingCursor (key-disjoint ordered tables) = concatenation; BoundsCursor with all 25 bound pairs = restriction; PruningCursor at timestamps {0,1,2,3,MAX} = newest version <= t per key unless a tombstone; LazyCursor = the cursor it opens. Every program of <= L calls (quick 3; thorough up to 5 on the small families) including every direction reversal is compared with the specification cursor after the last call.",
         "note": "436 k cases / 233 M programs in the quick tier. The compositions lsmtk actually builds are exercised end to end by C03.",
     },
+    "C12": {
+        "level": "model_checking",
+        "technique": "bounded exhaustive enumeration of batch-size sequences around the 1 MiB block boundary and of every truncation length on the real LogBuilder/LogIterator, plus stateless model checking under loom of 2-3 threads appending through the real ConcurrentLogBuilder with write/fdatasync interposed",
+        "design_ref": "DESIGN.md 4 (C12)",
+        "jobs": {
+            "quick": [{"ws": "harness", "bin": "seq_log", "args": [], "timeout": 1800},
+                      {"ws": "loomh", "bin": "loom_log", "args": [], "timeout": 1200}],
+            "thorough": [{"ws": "harness", "bin": "seq_log", "args": [], "timeout": 7200},
+                         {"ws": "loomh", "bin": "loom_log", "args": [], "timeout": 10000}],
+        },
+        "text": "Sequential: every remainder r in 0..=40 (thorough 0..=64) before the 1 MiB block boundary x every sequence of <= 2 (thorough 3) following batches over 12 size classes (minimal, 19/20/21 bytes around the header size, 4 KiB, multi-entry, maximal, one over the maximum which must be refused), two buffer-size rows, memory and file media: the real LogIterator must return exactly the appended entries, in order, once; the builder's setsum must equal an independent recomputation. Truncation: every cut of 258 small logs and, around every frame / block boundary (every byte in the thorough tier) of 12 boundary-straddling ~1 MiB logs: the reader yields the batches that lie wholly before the cut and then ends or errors, never a partial or invented batch, never a panic, never an allocation above 64 MiB; truncate_final_partial_frame's offset leaves a clean prefix. Concurrent: 2-3 threads x 1-2 appends through ConcurrentLogBuilder<File> (2 or 4 wait-list slots) under loom with write and fdatasync interposed: an append returns Ok only after a completed fdatasync that began when its bytes were in the file; the file holds every batch once, whole, in per-thread order; with the first or second fdatasync failing no such append returns Ok.",
+        "note": "loom preemption bounds 2-3 completed per configuration in the quick tier; batches are two entries; the file system is real.",
+    },
+    "C09": {
+        "level": "fault_enumeration",
+        "technique": "exhaustive damage enumeration: every single-bit flip, 4 byte overwrites per offset, every truncation length, 6 appended suffixes (and all pairs in unchecksummed regions) of SSTs, logs and manifests produced by the real builders; full read program on each damaged file compared with the pristine observation",
+        "design_ref": "DESIGN.md 3.2 (damage mode), 4 (C09)",
+        "jobs": {
+            "quick": [{"ws": "harness", "bin": "damage", "args": [], "timeout": 1800}],
+            "thorough": [{"ws": "harness", "bin": "damage", "args": [], "timeout": 7200}],
+        },
+        "text": "15 pristine files (19 thorough): SSTs with 1-3 data blocks under 3 option rows (bloom bits, restart intervals), logs with whole, split and padded frames (1 MiB boundary), manifests with 1-3 edits and a rollover; thorough adds a two-SST store. Per file and region (data / index / filter / final block / trailing offset; log headers / payload / padding; manifest CRC digits / payload / separators) every single-bit flip at every offset, the overwrites {00, FF, b^80, b+1}, every truncation length, six appended suffixes, and in the thorough tier all pairs of single-byte damages in the regions no checksum covers (6.1 M cases). On each damaged file the whole read program runs (Sst::new, metadata, forward and backward walk, load of every key at several timestamps; LogIterator drain, log_to_builder, log_to_setsum; ManifestIterator, Manifest::open, Manifest::verify; KeyValueStore::open + read-back) and every step must return an error or exactly the pristine observation; no panic, no abort (child processes), no allocation beyond the stated bound.",
+        "note": "Accepted by contract: a truncated/extended log reading as a prefix of whole batches (C12), a truncated manifest reading as a prefix of whole edits (C13), file_size of a file whose length changed. For the two ~1 MiB logs byte damage is restricted to stated windows around headers, padding and the block boundary. Four classes of genuine findings are recorded as known (unchecksummed SST final block and its store-level consequence; appended duplicate frame / edit).",
+    },
 }
 
 HOOK_COMMITS = ["78dca42", "83c0526", "7e7e701", "cedc0ca"]
 
 ENGINES = [
+    {"name": "damagemc", "path": "harness/damagemc", "serves_properties": ["C09"], "kind_free_text": "exhaustive single (and paired) damage of finished SST / log / manifest files, read programs compared with the pristine observation"},
+    {"name": "logmc", "path": "harness/logmc", "serves_properties": ["C12"], "kind_free_text": "bounded exhaustive batch-size sequences and truncations on the real log builder/reader"},
     {"name": "sstmc", "path": "harness/sstmc", "serves_properties": ["C10", "C11"], "kind_free_text": "bounded exhaustive entry sequences x cursor programs on real blocks, SSTs and cursor combinators against vector references"},
     {"name": "enumc", "path": "harness/enumc", "serves_properties": ["C14", "C16"], "kind_free_text": "bounded-exhaustive input enumeration for setsum and the tuple-key crates against independent references"},
     {"name": "manimc", "path": "harness/manimc", "serves_properties": ["C13", "C18"], "kind_free_text": "bounded exhaustive operation sequences on the real Manifest, LRU cache and wait list against sequential references"},
